@@ -507,9 +507,13 @@ impl Template {
                 (MaybeOpen | Key, c) if c.is_ascii_whitespace() => {
                     // If we find whitespace where the variable key is supposed to go,
                     // backtrack and act as if this was a literal.
-                    buf.push(c);
-                    let mut new = String::from("{");
-                    new.push_str(&buf);
+                    // In the `MaybeOpen` state `buf` still holds the literal text in front of the
+                    // brace, in the `Key` state it holds what follows the brace.
+                    let mut new = match state {
+                        MaybeOpen => mem::take(&mut buf) + "{",
+                        _ => String::from("{") + &buf,
+                    };
+                    new.push(c);
                     buf.clear();
                     parts.push(TemplatePart::Literal(TabExpandedString::new(
                         new.into(),
